@@ -121,6 +121,22 @@ def judgeStream (msgs : List Msg) (delivered : List (Option Msg)) (closed : Bool
     if !closed ∧ delivered = msgs.map (fun m => some (canon .tcp m)) then .ok else .violates "stream-roundtrip"
   else .skip
 
+/-- A real datagram server: every well-formed message sent as one datagram (not larger than the server's maximum
+message size) reaches the application as the same message. -/
+def judgeDatagramServer (maxSize : Nat) (msgs : List Msg) (delivered : List (Option Msg)) : Verdict :=
+  if msgs.all (fun m => WF .udp m && decide ((encUdp m).length ≤ maxSize)) then
+    if delivered = msgs.map (fun m => some m) then .ok else .violates "datagram-roundtrip"
+  else .skip
+
+/-- The pooled entry point: token set through `pool.Message.SetToken`, then `MarshalWithEncoder`. -/
+def judgePooledToken (f : Framing) (m : Msg) (err : String) (wire tokBack : Bytes) : Verdict :=
+  if err = "panic" then .violates "no-crash"
+  else if WF f m then
+    if err = "ok" ∧ wire = enc f m ∧ tokBack = m.token then .ok else .violates "encode-equals-rfc"
+  else if mustRefuse f m then
+    if err ≠ "ok" ∧ err ≠ "tooSmall" then .ok else .violates (refuseClause f m)
+  else .skip
+
 /-- The scenario's handler: 2.05 Content, Content-Format 42, the request's payload, piggybacked on the ACK. -/
 def echoResponse (mid : Int) (tok pay : Bytes) : Msg := ⟨2, mid, 69, tok, [⟨12, [42]⟩], pay⟩
 
@@ -190,6 +206,15 @@ def judgeCanonical (f : Framing) (m : Msg) (reErr : String) (reBytes : Bytes) (d
       if d2.err = "panic" then .violates "no-crash"
       else if d2.err = "ok" ∧ d2.msg = some m ∧ d2.n = (reBytes.length : Int) then .ok
       else .violates "decode-canonical"
+
+/-- A datagram server with several peers: the application receives, on each peer's connection, exactly the reference
+parses of the datagrams THAT peer sent, in order — whatever else the socket read in between. -/
+def judgePeers (sentPerPeer : List (List Bytes)) (gotPerPeer : List (List (Option Msg))) (unknown : Bool) : Verdict :=
+  let want := sentPerPeer.map fun ds => ds.map Rfc7252.parse
+  if unknown then .violates "each-peer-gets-its-own-bytes"
+  else if want.all (fun l => l.all Option.isSome) then
+    if gotPerPeer = want then .ok else .violates "each-peer-gets-its-own-bytes"
+  else .skip
 
 /-- `DecodeHeader`: `short` = asks for more bytes (ErrShortRead). -/
 def judgeHeader (bs : Bytes) (err : String) (hdrLen msgLen code : Nat) (token : Bytes) : Verdict :=
